@@ -2,6 +2,8 @@ import SqlgrepModel.Model.Expr
 import SqlgrepModel.Model.Float
 import SqlgrepModel.Model.CivilE
 import SqlgrepModel.Model.Text
+import SqlgrepModel.Model.DecFloat
+import SqlgrepModel.Model.ParseLit
 /-
 Expression evaluation: `ExpressionExecutionEngine::evaluate` (src/execution/expression_execution.rs),
 `ValueType::parse` and `Display for Value` (src/model.rs) — the repaired code at /repo HEAD
@@ -96,9 +98,10 @@ def parseLit (O : Oracles) (t : VType) (s : Bytes) : Outcome (Option Value) :=
   match t with
   | .int => .ok ((parseI64 s).map .int)
   | .real =>
+    -- `f64::from_str`: the shipped fact (a cross-check) or, when none is shipped, `DecFloat.parseF64N`
     match lookupB O.fparse s with
     | some r => .ok (r.map .real)
-    | none => .oracleMissing "fparse"
+    | none => .ok ((DecFloat.parseF64N s).map .real)
   | .bool =>
     if s == "true".toUTF8.toList.map (·.toNat) then .ok (some (.bool true))
     else if s == "false".toUTF8.toList.map (·.toNat) then .ok (some (.bool false))
@@ -106,9 +109,10 @@ def parseLit (O : Oracles) (t : VType) (s : Bytes) : Outcome (Option Value) :=
   | .text => .ok (some (.text s))
   | .array _ => .ok none
   | .timestamp =>
+    -- chrono's parse: the shipped fact (a cross-check) or, when none is shipped, `Lit.parseTimestampLit`
     match lookupB O.tsparse s with
     | some r => .ok (r.map (fun (d, sec, f) => .timestamp d sec f))
-    | none => .oracleMissing "tsparse"
+    | none => .ok (Lit.parseTimestampLit s)
   | .interval =>
     match splitOn 58 s with
     | [a, b, c] =>
